@@ -78,7 +78,11 @@ def children(choices, points, start, bound):
 
 
 def _dfs(args):
-    execute, check, root, bound, cap = args
+    execute, check, root, bound, cap = args[:5]
+    deadline = args[5] if len(args) > 5 else None
+    import time as _time
+    if deadline is not None and _time.time() > deadline:
+        return 0, [], {}, 0, True
     stack = [root]
     n = 0
     bad = []
@@ -95,8 +99,8 @@ def _dfs(args):
         for v in check(obs):
             if len(bad) < 20:
                 bad.append((v, [c for c, _ in ch.choices]))
-        if cap and n >= cap:
-            capped = bool(stack)
+        if (cap and n >= cap) or (deadline is not None and _time.time() > deadline):
+            capped = bool(stack) or bool(children(ch.choices, ch.points, len(prefix), bound))
             break
         stack.extend(children(ch.choices, ch.points, len(prefix), bound))
     return n, bad, outcomes, maxpts, capped
@@ -108,9 +112,13 @@ def _root(args):
     return obs, list(check(obs)), ch.choices, ch.points
 
 
-def explore_many(tasks, cap_per_subtree=0):
+def explore_many(tasks, cap_per_subtree=0, time_cap=None):
     """tasks: list of (execute, check, bound).  All roots, then all first-level subtrees of
-    all tasks, are spread over the worker pool.  Returns one stats dict per task."""
+    all tasks, are spread over the worker pool.  Returns one stats dict per task.
+    time_cap (seconds, wall): subtrees not finished by then are abandoned and the task is marked "capped" - the caller
+    reports the cap and which lower bound was completed without one."""
+    import time as _time
+    deadline = _time.time() + time_cap if time_cap else None
     roots = common.pmap(_root, tasks, chunksize=1)
     if tasks:
         # determinism self-test: the first task's default schedule executed again must give the same observation and points
@@ -125,7 +133,7 @@ def explore_many(tasks, cap_per_subtree=0):
                "max_points": len(points), "capped": False, "bound": bound}
         results.append(res)
         for r in children(choices, points, 0, bound):
-            jobs.append((execute, check, r, bound, cap_per_subtree))
+            jobs.append((execute, check, r, bound, cap_per_subtree, deadline))
             owner.append(ti)
     # biggest subtrees tend to be the ones branching earliest: keep generation order, chunk 1
     for ti, (n, bad, outcomes, maxpts, capped) in zip(owner, common.pmap(_dfs, jobs, chunksize=1)):
@@ -139,8 +147,36 @@ def explore_many(tasks, cap_per_subtree=0):
     return results
 
 
-def explore(execute, check, bound, cap_per_subtree=0):
-    return explore_many([(execute, check, bound)], cap_per_subtree)[0]
+def explore(execute, check, bound, cap_per_subtree=0, time_cap=None):
+    return explore_many([(execute, check, bound)], cap_per_subtree, time_cap)[0]
+
+
+def _lower(bound, floor):
+    if isinstance(bound, tuple):
+        return (min(bound[0], floor), bound[1])
+    return min(bound, floor)
+
+
+def explore_many_capped(tasks, floor, time_cap):
+    """Thorough-tier exploration with a stated budget: every task is first explored completely at min(its bound, floor) - the bound
+    the quick tier completes - and then at its own bound within time_cap seconds of wall time.  Each result says which bound was
+    completed without a cap ("bound_completed") and whether the larger one was cut short ("capped")."""
+    low = [(e, c, _lower(b, floor)) for e, c, b in tasks]
+    res_low = explore_many(low)
+    if all(lb == b for (_, _, lb), (_, _, b) in zip(low, tasks)):
+        for r, (_, _, b) in zip(res_low, tasks):
+            r["bound_completed"] = b
+        return res_low
+    res = explore_many(tasks, time_cap=time_cap)
+    for r, rl, (_, _, b), (_, _, lb) in zip(res, res_low, tasks, low):
+        seen = {(v, tuple(c)) for v, c in r["violations"]}
+        r["violations"] += [(v, c) for v, c in rl["violations"] if (v, tuple(c)) not in seen]
+        r["executions"] += rl["executions"]
+        for k, c in rl["outcomes"].items():
+            r["outcomes"].setdefault(k, c)
+        r["max_points"] = max(r["max_points"], rl["max_points"])
+        r["bound_completed"] = b if not r["capped"] else lb
+    return res
 
 
 def replay_choices(execute, choices):
